@@ -6,19 +6,20 @@ Results -> benign/RESULTS.json."""
 import json, os, subprocess, sys, time
 VERIF = os.path.dirname(os.path.dirname(os.path.abspath(__file__)))
 src = os.path.join(VERIF, "benign")
-WT = "/tmp/wt_benign"
+WT = os.environ.get("BENIGN_WT", "/tmp/wt_benign")   # a second instance can run beside the first with its own worktree,
+SCR = os.environ.get("BENIGN_SCRATCH", "/tmp/benignrun")  # scratch directories and results file (BENIGN_RESULTS), merged afterwards
 args = sys.argv[1:]
 only_new = False
 if args and args[0] == "--only-new": only_new = True; args = args[1:]
 ids = args or sorted(d for d in os.listdir(src) if os.path.isdir(os.path.join(src, d)))
-rp = os.path.join(src, "RESULTS.json")
+rp = os.environ.get("BENIGN_RESULTS", os.path.join(src, "RESULTS.json"))
 res = json.load(open(rp)) if os.path.exists(rp) else {}
 def sh(*a, **k): return subprocess.run(a, capture_output=True, text=True, errors="replace", **k)
 head = sh("git", "-C", "/repo", "rev-parse", "HEAD").stdout.strip()
 if not os.path.isdir(WT): sh("git", "-C", "/repo", "worktree", "add", "-f", "--detach", WT, head)
 PROPS = ["C%02d" % i for i in range(1, 21)]
-env = dict(os.environ, VERIF_SRC=WT, VERIF_EVIDENCE_DIR="/tmp/benignrun/evidence", VERIF_REPLAY_DIR="/tmp/benignrun/replays", VERIF_RUNS_DIR="/tmp/benignrun/runs", VERIF_MAX_NEW="6")
-for dd in ("evidence", "replays", "runs"): os.makedirs("/tmp/benignrun/" + dd, exist_ok=True)
+env = dict(os.environ, VERIF_SRC=WT, VERIF_EVIDENCE_DIR=SCR + "/evidence", VERIF_REPLAY_DIR=SCR + "/replays", VERIF_RUNS_DIR=SCR + "/runs", VERIF_MAX_NEW="6")
+for dd in ("evidence", "replays", "runs"): os.makedirs(SCR + "/" + dd, exist_ok=True)
 for pid in ids:
     d = os.path.join(src, pid)
     for k in sorted(os.listdir(d)):
